@@ -91,7 +91,10 @@ def run(pid, tier, seed):
         # (an overloaded machine: nodes not ready in time / a path that did not answer the synchronising call; such runs
         # are dropped by the harness and claim nothing)
         log("[V] remoteactor-free: %d of %d runs could not be judged and were dropped" % (summ2["bad_runs"], summ2.get("runs", 0) + summ2["bad_runs"]))
-    vb2 = vlib.validate_batch("Trace_RemoteActor", "Trace_RemoteActor.cfg", trace2, "remoteactor_free_" + pid, start_lenient=True)
+    if summ2.get("runs", 0) > 0:
+        vb2 = vlib.validate_batch("Trace_RemoteActor", "Trace_RemoteActor.cfg", trace2, "remoteactor_free_" + pid, start_lenient=True)
+    else:
+        vb2 = {"runs": 0, "events": 0, "lenient_accepted": 0, "violations": []}
     log("[V] remoteactor-free: %d runs, %d events, accepted on observations %d, rejected %d" % (
         vb2["runs"], vb2["events"], vb2["lenient_accepted"], len(vb2["violations"])))
     for viol in vb2["violations"]:
